@@ -1,7 +1,8 @@
 (* Props/Properties_C08.v — C08: semaphores conserve permits and release blocked acquirers.
    Only statements; each is closed by [exact] of a lemma from Proofs/ and followed by
    Print Assumptions.  Model: Model/Semaphore.v (counting_semaphore.cpp after the F1 fix,
-   sliding_semaphore.cpp, detail condition variable, both agent instances). *)
+   sliding_semaphore.cpp incl. signal_all and the public set_max_difference after its fix (it now
+   notifies the waiters), detail condition variable, both agent instances). *)
 From Coq Require Import List ZArith Bool.
 From Pika Require Import Base.Conc Base.Agent Model.Semaphore Proofs.SemaphoreProofs Proofs.SemaphoreScenarios
   Proofs.SemaphoreProgress Proofs.SemaphoreSyncWait.
@@ -45,10 +46,30 @@ Theorem C08_false_leaves_count : forall kind o t g l,
 Proof. exact false_leaves_count. Qed.
 Print Assumptions C08_false_leaves_count.
 
+(* lower_limit_ / max_difference_: set_max_difference(md, lo) OVERWRITES both (the lower limit may
+   decrease); every other step leaves max_difference_ and never decreases the lower limit.
+   [at_setmd l]: the thread's next step is the first critical section of a set_max_difference;
+   [quiet kind s c]: no step of schedule s started in c is one.  So the lower limit is monotone
+   between two set_max_difference calls of any run (was: along every run, when the model had no
+   set_max_difference), and along every run of programs that contain none. *)
+Theorem C08_sliding_signal_monotone_step : forall kind o t g l, ~ at_setmd l ->
+  lower g <= lower (fst (sem_tstep kind o t g l)) /\ maxd (fst (sem_tstep kind o t g l)) = maxd g.
+Proof. exact sliding_signal_monotone_step. Qed.
+Print Assumptions C08_sliding_signal_monotone_step.
+
 Theorem C08_sliding_signal_monotone : forall kind s1 s2 c,
-  lower (fst (run (sem_tstep kind) s1 c)) <= lower (fst (run (sem_tstep kind) (s1 ++ s2) c)).
+  quiet kind s2 (run (sem_tstep kind) s1 c) ->
+  lower (fst (run (sem_tstep kind) s1 c)) <= lower (fst (run (sem_tstep kind) (s1 ++ s2) c)) /\
+  maxd (fst (run (sem_tstep kind) (s1 ++ s2) c)) = maxd (fst (run (sem_tstep kind) s1 c)).
 Proof. exact sliding_signal_monotone. Qed.
 Print Assumptions C08_sliding_signal_monotone.
+
+Theorem C08_sliding_signal_monotone_no_setmd : forall kind s1 s2 c,
+  (forall t, Forall no_setmd (todo (snd c t))) ->
+  lower (fst (run (sem_tstep kind) s1 c)) <= lower (fst (run (sem_tstep kind) (s1 ++ s2) c)) /\
+  maxd (fst (run (sem_tstep kind) (s1 ++ s2) c)) = maxd (fst c).
+Proof. exact sliding_signal_monotone_no_setmd. Qed.
+Print Assumptions C08_sliding_signal_monotone_no_setmd.
 
 Theorem C08_sliding_signal_sets_max : forall kind o t g l x rest,
   pc l = Idle -> todo l = SlSignal x :: rest -> holder g = None ->
@@ -56,11 +77,26 @@ Theorem C08_sliding_signal_sets_max : forall kind o t g l x rest,
 Proof. exact sliding_signal_sets_max. Qed.
 Print Assumptions C08_sliding_signal_sets_max.
 
-(* sliding wait returns only if upper - max_difference <= lower; try_wait returns true iff *)
+(* signal_all() = signal(lower_limit_): only notifies; the value it returns is ev_lower of its log entry *)
+Theorem C08_sliding_signal_all_keeps : forall kind o t g l rest,
+  pc l = Idle -> todo l = SlSignalAll :: rest -> holder g = None ->
+  lower (fst (sem_tstep kind o t g l)) = lower g /\ maxd (fst (sem_tstep kind o t g l)) = maxd g.
+Proof. exact sliding_signal_all_keeps. Qed.
+Print Assumptions C08_sliding_signal_all_keeps.
+
+Theorem C08_sliding_set_max_difference_sets : forall kind o t g l md lo rest,
+  pc l = Idle -> todo l = SlSetMaxDiff md lo :: rest -> holder g = None ->
+  lower (fst (sem_tstep kind o t g l)) = lo /\ maxd (fst (sem_tstep kind o t g l)) = md.
+Proof. exact sliding_set_max_difference_sets. Qed.
+Print Assumptions C08_sliding_set_max_difference_sets.
+
+(* sliding wait returns only if upper - max_difference <= lower; try_wait returns true iff —
+   with the max_difference and the lower limit in force at its return (both recorded in the log
+   entry: set_max_difference may change them before and after) *)
 Theorem C08_sliding_wait_only_if : forall kind sched v0 lo0 md progs, 0 <= v0 -> wf_progs progs ->
   forall e, In e (slog (fst (sem_run kind sched v0 lo0 md progs))) ->
-  (forall u, ev_op e = SlWait u -> u - md <= ev_lower e) /\
-  (forall u, ev_op e = SlTryWait u -> (ev_res e = true <-> u - md <= ev_lower e)).
+  (forall u, ev_op e = SlWait u -> u - ev_maxd e <= ev_lower e) /\
+  (forall u, ev_op e = SlTryWait u -> (ev_res e = true <-> u - ev_maxd e <= ev_lower e)).
 Proof. exact sliding_wait_only_if. Qed.
 Print Assumptions C08_sliding_wait_only_if.
 
@@ -144,15 +180,19 @@ Theorem C08_no_blocked_with_permits_mixed_counts_refuted :
 Proof. exact no_blocked_with_permits_mixed_counts_refuted. Qed.
 Print Assumptions C08_no_blocked_with_permits_mixed_counts_refuted.
 
-(* sliding semaphore, ANY program (also mixed with counting operations of any count): in every
-   reachable stuck state no waiter with upper - max_difference <= lower is blocked; every thread
-   has finished or is blocked in a wait whose condition is false. *)
+(* sliding semaphore, ANY program — wait / try_wait / signal / signal_all / set_max_difference, also
+   mixed with counting operations of any count: in every reachable stuck state no waiter with
+   upper - max_difference <= lower is blocked (current max_difference and lower limit, whoever set
+   them last); every thread has finished or is blocked in a wait whose condition is false.
+   UNGUARDED for set_max_difference since the fix "set_max_difference notifies the waiters": before
+   it, [SlWait 5] [SlSetMaxDiff 10 0] with max_difference 1, lower 0 was the counterexample (stuck
+   with thread 0 blocked although 5 - 10 <= 0; replayed on the real code, see notes/design/C08.md). *)
 Theorem C08_sliding_wait_progress : forall kind sched v0 lo0 md progs,
   0 <= v0 -> wf_progs progs -> os_untimed kind progs ->
   let c := sem_run kind sched v0 lo0 md progs in
   stuck kind (fst c) (snd c) ->
-  (forall t u, waiting_for (snd c t) (CSl u) -> lower (fst c) < u - md) /\
-  (forall t, finished (snd c t) \/ exists w, pc (snd c t) = Blk w /\ forall u, w = CSl u -> lower (fst c) < u - md).
+  (forall t u, waiting_for (snd c t) (CSl u) -> lower (fst c) < u - maxd (fst c)) /\
+  (forall t, finished (snd c t) \/ exists w, pc (snd c t) = Blk w /\ forall u, w = CSl u -> lower (fst c) < u - maxd (fst c)).
 Proof. exact sliding_wait_progress. Qed.
 Print Assumptions C08_sliding_wait_progress.
 
@@ -195,3 +235,29 @@ Example C08_sync_wait_example :
   stuck all_task (fst c) (snd c) /\ finished (snd c 0%nat) /\ finished (snd c 1%nat) /\
   map ev_tid (slog (fst c)) = [0; 1]%nat /\ map ev_sig_active (slog (fst c)) = [false; false] /\ value (fst c) = 0.
 Proof. exact sync_wait_example. Qed.
+
+(* the former counterexample of C08_sliding_wait_progress: after [wait(5) blocks] [set_max_difference(10, 0)]
+   the waiter has been popped and resumed (not stuck); it re-tests 5 - 10 <= 0 and returns;
+   signal_all then returns the lower limit 0 *)
+Example C08_set_max_difference_example :
+  wf_progs smd_progs /\ os_untimed all_os smd_progs /\
+  (let c := sem_run all_os [(0,false);(0,false);(1,false)]%nat 0 0 1 smd_progs in
+   is_blocked_thread c 0%nat = false /\ pc (snd c 0%nat) = Blk (CSl 5) /\ lower (fst c) = 0 /\ maxd (fst c) = 10 /\
+   popped (fst c) = [0%nat] /\ ~ stuck all_os (fst c) (snd c)) /\
+  (let c := sem_run all_os [(0,false);(0,false);(1,false);(0,false);(1,false)]%nat 0 0 1 smd_progs in
+   stuck all_os (fst c) (snd c) /\ finished (snd c 0%nat) /\ finished (snd c 1%nat) /\
+   map ev_op (slog (fst c)) = [SlSignalAll; SlWait 5; SlSetMaxDiff 10 0] /\
+   map ev_lower (slog (fst c)) = [0; 0; 0] /\ map ev_maxd (slog (fst c)) = [10; 10; 10]).
+Proof. exact set_max_difference_example. Qed.
+
+(* set_max_difference overwrites the lower limit (7 -> 3): the step is not [quiet]; afterwards
+   wait(6) blocks (6 - 2 > 3) although 6 - 1 <= 7 held before; stuck with the waiter correctly blocked *)
+Example C08_set_max_difference_lowers_example :
+  let c1 := sem_run all_os [(0,false)]%nat 0 0 1 lowers_progs in
+  let c2 := sem_run all_os [(0,false);(0,false)]%nat 0 0 1 lowers_progs in
+  let c := sem_run all_os [(0,false);(0,false);(0,false);(0,false);(0,false)]%nat 0 0 1 lowers_progs in
+  lower (fst c1) = 7 /\ maxd (fst c1) = 1 /\ lower (fst c2) = 3 /\ maxd (fst c2) = 2 /\
+  ~ quiet all_os [(0,false)]%nat c1 /\
+  stuck all_os (fst c) (snd c) /\ pc (snd c 0%nat) = Blk (CSl 6) /\ is_blocked_thread c 0%nat = true /\
+  map ev_res (slog (fst c)) = [true; true; true].
+Proof. exact set_max_difference_lowers_example. Qed.
